@@ -23,7 +23,7 @@ Proof.
   simpl in Hr.
   destruct Hr as [<-|[<-|[<-|[<-|[<-|[<-|[]]]]]]]; cbn [detect_of]; try reflexivity.
   - unfold detect_srt. destruct (splitlines s) as [|l0 rest]; [congruence|].
-    destruct (isdigit l0); [|reflexivity]. destruct rest; reflexivity.
+    destruct (u_isdigit l0); [|reflexivity]. destruct rest; reflexivity.
   - unfold detect_scc. destruct (splitlines s) as [|l0 rest]; [congruence|]. reflexivity.
 Qed.
 
@@ -34,7 +34,7 @@ Proof.
   simpl in Hr.
   destruct Hr as [<-|[<-|[<-|[<-|[<-|[<-|[]]]]]]]; cbn [detect_of]; try (eexists; reflexivity).
   - unfold detect_srt. destruct (splitlines s) as [|l0 rest]; [congruence|].
-    destruct (isdigit l0); [|eexists; reflexivity]. destruct rest; eexists; reflexivity.
+    destruct (u_isdigit l0); [|eexists; reflexivity]. destruct rest; eexists; reflexivity.
   - unfold detect_scc. destruct (splitlines s) as [|l0 rest]; [congruence|]. eexists; reflexivity.
 Qed.
 
@@ -71,8 +71,14 @@ Proof.
   intros s. destruct s as [|c t] eqn:E; [reflexivity|].
   assert (Hs : s <> []) by (subst; discriminate). rewrite <- E.
   unfold ok_detect. rewrite detect_format_first_match by exact Hs.
-  rewrite opt_z_eqb_refl, andb_true_r.
-  apply andb_true_iff. split; [reflexivity|].
+  rewrite opt_z_eqb_refl. reflexivity.
+Qed.
+
+(* every sniffer of the model is total on non-empty strings (the stronger reading) *)
+Lemma model_sniffers_total : forall s, s <> [] ->
+  all_sniffers_total (map (fun r => detect_of r s) documented_order) = true.
+Proof.
+  intros s Hs. unfold all_sniffers_total.
   apply forallb_forall. intros x Hx. apply in_map_iff in Hx. destruct Hx as [r [<- Hr]].
   destruct (detect_of_ok s r Hs Hr) as [b ->]. reflexivity.
 Qed.
@@ -83,3 +89,9 @@ Proof. reflexivity. Qed.
 (* the pinned sniffer did crash: detect("1") *)
 Lemma srt_detect_index_refuted : exists s, s <> [] /\ is_crash (detect_srt_prefix s) = true.
 Proof. exists [49]. split; [discriminate|reflexivity]. Qed.
+
+(* the sniffing constants read from the working tree are the documented ones *)
+Lemma generated_constants_documented :
+  dfxp_marker = lit "</tt>" /\ vtt_marker = lit "WEBVTT" /\ sami_marker = lit "<sami" /\ srt_arrow = lit "-->" /\
+  mdvd_pattern = lit "{\d+}{\d+}" /\ scc_header = lit "Scenarist_SCC V1.0".
+Proof. repeat split; reflexivity. Qed.
